@@ -278,6 +278,9 @@ class MetadataTable:
         self.lookup = {}
         for entry in self.entries:
             item_id = UUID(bytes_le=entry.item_id)
+            if item_id not in self.METADATA_MAP and not entry.is_required:
+                # Unknown optional metadata items can be ignored
+                continue
 
             fh.seek(self.offset + entry.offset)
             value = self.METADATA_MAP[item_id](fh)
